@@ -1,9 +1,15 @@
 package checks
 
 import (
+	"crypto/sha512"
+	"encoding/binary"
 	"fmt"
+	"io"
 	"math/big"
 	"strings"
+	"sync"
+
+	"github.com/bnb-chain/tss-lib/v2/common"
 
 	ecdsakeygen "github.com/bnb-chain/tss-lib/v2/ecdsa/keygen"
 	eddsakeygen "github.com/bnb-chain/tss-lib/v2/eddsa/keygen"
@@ -23,7 +29,7 @@ func init() {
 		ID:    "C01",
 		Level: "exploration",
 		Rule: "keys: fresh distributed keygens made in this run ((3,1),(5,2) quick; all (n,t) n<=5 thorough) + the vendored 5-party key; signer sets of every size t+1..n (first/last/non-contiguous subsets, ids supplied shuffled); digests {0,1,q-1,2^248-1,2^8,seeded}; refused digests {q,q+1,2^256-1}; " +
-			"fullBytesLen {absent,32,33,64}; schedules FIFO/LIFO/seeded-random. Every finished session goes through the reference ECDSA verifier, btcec's verifier, public-key recovery and the canonical-form checks. Class = (key, signer set, digest class, fullBytesLen, scheduler); non-trivial when a signature (or a refusal for digest>=q) was observed.",
+			"fullBytesLen {absent,32,33,64}; schedules FIFO/LIFO/seeded-random; forced-s sessions (reproducible per-signer randomness, digest solved for so that the un-normalised s hits {half, half+-1, 1, q-1, 2^255, values with leading zero bytes}). Every finished session goes through the reference ECDSA verifier, btcec's verifier, public-key recovery and the canonical-form checks. Class = (key, signer set, digest class, fullBytesLen, scheduler); non-trivial when a signature (or a refusal for digest>=q) was observed.",
 		Assumptions: []string{"reference secp256k1/ECDSA code in ref/ (known-answer tested)", "r >= q (recovery bit 1) has probability 2^-128 and is not reachable"},
 		Gen:         c01Gen,
 		Run:         c01Run,
@@ -322,6 +328,12 @@ func c01Gen(tier string, seed int64) []core.Case {
 				cs = append(cs, core.Case{ID: id, Class: id, Kind: "sign", Cost: 0.4 * float64(len(set)),
 					P: core.P{"key": kk.name, "n": kk.n, "t": kk.t, "signers": set, "digest": d, "full": fl, "sched": sch, "shuffle": (k+j)%2 == 0}})
 			}
+			if k < len(forcedS) || tier == "thorough" {
+				tg := forcedS[k%len(forcedS)]
+				id := fmt.Sprintf("%s-n%d-t%d/signers=%v/forced-s=%s", kk.name, kk.n, kk.t, set, tg)
+				cs = append(cs, core.Case{ID: id, Class: id, Kind: "forced-s", Cost: 0.8 * float64(len(set)),
+					P: core.P{"key": kk.name, "n": kk.n, "t": kk.t, "signers": set, "target": tg, "sched": "fifo"}})
+			}
 			d := refused[k%len(refused)]
 			id := fmt.Sprintf("%s-n%d-t%d/signers=%v/refused=%s", kk.name, kk.n, kk.t, set, d)
 			cs = append(cs, core.Case{ID: id, Class: id, Kind: "refuse", Cost: 0.2,
@@ -330,6 +342,167 @@ func c01Gen(tier string, seed int64) []core.Case {
 		}
 	}
 	return cs
+}
+
+// forcedS names the values the un-normalised sum of the signature shares is steered to (see c01ForcedS).
+var forcedS = []string{"0080..01", "00ff..ff", "half", "half+1", "half-1", "1", "q-1", "2^255", "q-5", "0000..80..", "2^248", "q-2^247"}
+
+func forcedSValue(name string) *big.Int {
+	q := ref.SecpN
+	half := new(big.Int).Rsh(q, 1)
+	switch name {
+	case "0080..01":
+		v := new(big.Int).Lsh(big.NewInt(0x80), 240)
+		return v.Add(v, big.NewInt(0x0c01))
+	case "00ff..ff":
+		return new(big.Int).Sub(new(big.Int).Lsh(big1, 248), big1)
+	case "half":
+		return half
+	case "half+1":
+		return new(big.Int).Add(half, big1)
+	case "half-1":
+		return new(big.Int).Sub(half, big1)
+	case "1":
+		return big.NewInt(1)
+	case "q-1":
+		return new(big.Int).Sub(q, big1)
+	case "2^255":
+		return new(big.Int).Lsh(big1, 255)
+	case "q-5":
+		return new(big.Int).Sub(q, big.NewInt(5))
+	case "0000..80..":
+		return new(big.Int).Lsh(big.NewInt(0x80), 232)
+	case "2^248":
+		return new(big.Int).Lsh(big1, 248)
+	case "q-2^247":
+		return new(big.Int).Sub(q, new(big.Int).Lsh(big1, 247))
+	}
+	return big.NewInt(2)
+}
+
+// detReader is a deterministic, goroutine-safe byte stream (SHA-512 in counter mode).
+type detReader struct {
+	mu   sync.Mutex
+	seed []byte
+	ctr  uint64
+	buf  []byte
+}
+
+func (d *detReader) Read(p []byte) (int, error) {
+	d.mu.Lock()
+	defer d.mu.Unlock()
+	for i := range p {
+		if len(d.buf) == 0 {
+			h := sha512.New()
+			h.Write(d.seed)
+			var c [8]byte
+			binary.BigEndian.PutUint64(c[:], d.ctr)
+			d.ctr++
+			h.Write(c[:])
+			d.buf = h.Sum(nil)
+		}
+		p[i] = d.buf[0]
+		d.buf = d.buf[1:]
+	}
+	return len(p), nil
+}
+
+// rawS sums the signature shares s_i that the parties broadcast in the last round: the value before the low-S rule.
+func rawS(w *sim.World) (*big.Int, int) {
+	sum := new(big.Int)
+	seen := map[string]bool{}
+	for _, m := range w.Msgs {
+		if m.Short != "SignRound9Message" || seen[m.From.Name] {
+			continue
+		}
+		if vs, err := sim.GetField(m.Wire, "s"); err == nil && len(vs) == 1 {
+			seen[m.From.Name] = true
+			sum.Add(sum, new(big.Int).SetBytes(vs[0]))
+		}
+	}
+	return sum.Mod(sum, ref.SecpN), len(seen)
+}
+
+// c01ForcedS steers the un-normalised s to a chosen value. In this protocol s = k*(m + r*x) with k the sum of the k_i each
+// signer draws first thing in round 1: with a reproducible randomness source per signer, k and R repeat when the same
+// signers sign another digest; one run with a throw-away digest reveals k (the harness knows x from the shares and reads
+// the s_i off the wire), then m* = s*/k - r*x makes the second run produce exactly s*. Decides the low-S rule and the
+// fixed-width encoding on the boundary values that random signing reaches once in 2^8 .. 2^255 sessions.
+func c01ForcedS(r *core.Result, c core.Case, env *core.Env, sel []ecdsakeygen.LocalPartySaveData, t int, pub ref.Pt) {
+	q := ref.SecpN
+	ids := make([]*big.Int, len(sel))
+	xs := make([]*big.Int, len(sel))
+	for i := range sel {
+		ids[i], xs[i] = sel[i].ShareID, sel[i].Xi
+	}
+	x := ref.InterpolateAt(ids[:t+1], xs[:t+1], new(big.Int), q)
+	if !ref.SecpBaseMul(x).Eq(pub) {
+		r.Inconcl("harness could not reconstruct the private key from the shares (C03's business)")
+		return
+	}
+	mkRand := func(i int) io.Reader {
+		return &detReader{seed: []byte(fmt.Sprintf("%d/%s/%d", env.Seed, c.ID, i))}
+	}
+	run := func(m *big.Int) (*sim.World, []*common.SignatureData, bool) {
+		w := sim.ECDSASigning(env.Seed+int64(len(c.ID)), sel, t, m, sim.SignOpts{Rand: mkRand})
+		w.Run(sim.StartsThen(sim.FIFO), nil)
+		outs, missing := sigOuts(w)
+		if errs := errorsOf(w); len(errs) > 0 || len(missing) > 0 {
+			r.Fail("sign:honest-error", "honest signing (reproducible randomness) failed: %s %v", core.Clip(strings.Join(errs, " | "), 400), missing)
+			return w, nil, false
+		}
+		return w, outs, true
+	}
+	m1 := digestOf("seeded-a", env.Seed, c.ID)
+	w1, outs1, ok := run(m1)
+	if !ok {
+		return
+	}
+	s1, cnt := rawS(w1)
+	if cnt != len(sel) {
+		r.Inconcl("could not read all signature shares off the wire (%d of %d)", cnt, len(sel))
+		return
+	}
+	rr := new(big.Int).SetBytes(outs1[0].R)
+	den := new(big.Int).Mul(rr, x)
+	den.Add(den, m1).Mod(den, q)
+	if den.Sign() == 0 || s1.Sign() == 0 {
+		r.Inconcl("degenerate first run")
+		return
+	}
+	k := new(big.Int).Mul(s1, new(big.Int).ModInverse(den, q))
+	k.Mod(k, q)
+	target := forcedSValue(c.P.Str("target"))
+	mStar := new(big.Int).Mul(target, new(big.Int).ModInverse(k, q))
+	mStar.Sub(mStar, new(big.Int).Mul(rr, x)).Mod(mStar, q)
+	w2, outs2, ok := run(mStar)
+	if !ok {
+		return
+	}
+	noteRun(r, w2)
+	s2, _ := rawS(w2)
+	if new(big.Int).SetBytes(outs2[0].R).Cmp(rr) != 0 || s2.Cmp(target) != 0 {
+		r.Inconcl("the nonce did not repeat under the reproducible randomness source (R equal: %v); the steering could not be applied", new(big.Int).SetBytes(outs2[0].R).Cmp(rr) == 0)
+		return
+	}
+	r.Count("forced_s_reached", 1)
+	r.AddSet("forced_s_targets", c.P.Str("target"))
+	half := new(big.Int).Rsh(q, 1)
+	want := new(big.Int).Set(target)
+	flipped := false
+	if want.Cmp(half) > 0 {
+		want.Sub(q, want)
+		flipped = true
+	}
+	for _, o := range outs2 {
+		if len(o.S) != 32 || new(big.Int).SetBytes(o.S).Cmp(want) != 0 {
+			r.Fail("sig:forced-s:"+c.P.Str("target"), "shares sum to s=%s (flip expected: %v): the emitted S is %x, want %s as 32 bytes", hx(target), flipped, o.S, hx(want))
+			break
+		}
+	}
+	ecdsaSigOracle(r, pub, mStar, 0, outs2)
+	r.NonTrivial = true
+	r.Sample = map[string]any{"case": c.ID, "raw_s": hx(target), "emitted_s": fmt.Sprintf("%x", outs2[0].S), "flipped": flipped}
 }
 
 func c01Run(c core.Case, env *core.Env) core.Result {
@@ -349,6 +522,10 @@ func c01Run(c core.Case, env *core.Env) core.Result {
 		sel = append(sel, keys[i])
 	}
 	pub := refPt(keys[0].ECDSAPub)
+	if c.Kind == "forced-s" {
+		c01ForcedS(&r, c, env, sel, t, pub)
+		return r
+	}
 	digest := digestOf(c.P.Str("digest"), env.Seed, c.ID)
 	full := c.P.Int("full")
 	before := snapshotECDSA(sel)
